@@ -395,8 +395,10 @@ func (en *stepEnv) interfere(victim string) (err error) {
 	if _, err = m.AddAsset(en.eN, "as1"); err != nil {
 		return
 	}
-	// a new action key as well (the set of actions grows, not only changes)
-	if _, err = m.Action(en.eN, "n0", 1_700_000_101, "n"); err != nil {
+	// a new action key as well (the set of actions grows, not only changes); on
+	// the entity that already carries the others, so that it can come anywhere
+	// in the list a newcomer is handed
+	if _, err = m.Action(en.e0, "n0", 1_700_000_101, "n"); err != nil {
 		return
 	}
 	if err = m.Custom([]byte("step-custom")); err != nil {
